@@ -5,6 +5,7 @@ import (
 	"html"
 	"sort"
 	"strings"
+	"sync"
 	"time"
 
 	"bmsym/smt"
@@ -392,6 +393,19 @@ func (w *seqWitness) inSkip(name string) bool {
 // starting from the zero Policy (no default tables).
 func (w *seqWitness) policyDSL() []NativeReq {
 	ops := []NativeReq{{"op": "base", "name": "Zero"}}
+	// a name that is on the allowed-without-attributes table without being
+	// allowed can only come from NewPolicy()'s defaults
+	defaultBareCache.Lock()
+	for _, b := range w.Bare {
+		if b != "" && !w.allowed(b) {
+			for _, d := range defaultBareCache.names {
+				if d == b {
+					ops[0] = NativeReq{"op": "base", "name": "New"}
+				}
+			}
+		}
+	}
+	defaultBareCache.Unlock()
 	if len(w.Els) > 0 {
 		ops = append(ops, NativeReq{"op": "AllowElements", "names": w.Els})
 	}
@@ -566,6 +580,14 @@ func (c *Ctx) searchWitness(lr *LoopRun, ev *Evidence, label string, maxK int, a
 			base = append(base, smt.Not(sv.Returned))
 		}
 		base = append(base, ps.WellFormed(), a1RawText(steps))
+		// witnesses are built through the builder API: an element is on the
+		// allowed-without-attributes table only if it is allowed, or is one of the
+		// defaults every policy starts with
+		if defs := c.defaultBare(); len(defs) > 0 {
+			for _, b := range ps.Bare {
+				base = append(base, smt.Or(ps.Allowed(b), oneOf(b, defs...), smt.Eq(b, smt.StrC(""))))
+			}
+		}
 		if assume != nil {
 			base = append(base, assume(steps))
 		}
@@ -632,4 +654,40 @@ func (c *Ctx) searchWitness(lr *LoopRun, ev *Evidence, label string, maxK int, a
 		}
 	}
 	return
+}
+
+var defaultBareCache struct {
+	sync.Mutex
+	done  bool
+	names []string
+}
+
+// defaultBare asks the real code for the default allowed-without-attributes table.
+func (c *Ctx) defaultBare() []string {
+	defaultBareCache.Lock()
+	defer defaultBareCache.Unlock()
+	if defaultBareCache.done {
+		return defaultBareCache.names
+	}
+	defaultBareCache.done = true
+	res, err := RunNative(c.Repo, c.VerifDir, []NativeReq{{"op": "defaultBare"}}, "")
+	if err != nil || len(res) == 0 {
+		c.Log("defaultBare: native query failed: %v", err)
+		return nil
+	}
+	if e, ok := res[0]["error"]; ok {
+		c.Log("defaultBare: %v", e)
+	}
+	if e, ok := res[0]["panic"]; ok {
+		c.Log("defaultBare: panic %v", e)
+	}
+	if l, ok := res[0]["names"].([]interface{}); ok {
+		for _, x := range l {
+			if s, ok := x.(string); ok {
+				defaultBareCache.names = append(defaultBareCache.names, s)
+			}
+		}
+	}
+	c.Log("defaultBare: %d names from the real table", len(defaultBareCache.names))
+	return defaultBareCache.names
 }
